@@ -77,6 +77,9 @@ pub enum QCorrupt {
     Count(u32),
     /// the k-th number token (modulo) made unparsable
     Number(u32),
+    /// the k-th entry count (modulo) replaced by a count far beyond the number of lines in the file
+    /// (`which` selects 10^9, 10^12, 2^62, 2^64-1): the listed entries end prematurely
+    CountBeyondFile(u32, u8),
 }
 
 /// what a rendered line is, for corruption targeting and the truncation oracle
@@ -87,6 +90,8 @@ pub enum LineKind {
     TypeCode,
     Sense,
     Count,
+    /// the count line in front of a list of entries
+    EntryCount,
     /// a line whose first `n` tokens are required, the last of them a floating-point number
     Value,
     Entry,
@@ -97,6 +102,9 @@ pub struct Rendered {
     pub text: String,
     /// 1-based physical line number of the corrupted token, if any
     pub corrupt_line: Option<usize>,
+    /// the error may be reported at the corrupted line or at any later line (a count that promises more entries
+    /// than the file has lines is noticed where the entries stop)
+    pub corrupt_line_is_lower_bound: bool,
     /// byte offset of the first byte of the last required line
     pub last_required_start: usize,
     pub n_lines: usize,
@@ -253,7 +261,7 @@ impl QpModel {
         // entries helper
         macro_rules! entries {
             ($items:expr, $what:expr) => {{
-                single!($items.len(), LineKind::Count, $what);
+                single!($items.len(), LineKind::EntryCount, $what);
                 for toks in $items.iter() {
                     noise(&mut rng, &mut lines);
                     let t = tail(&mut rng, "|");
@@ -328,16 +336,27 @@ impl QpModel {
         }
         // corruption of a count or a number token
         let mut corrupt_line = None;
+        let mut corrupt_line_is_lower_bound = false;
         match corrupt {
             Some(QCorrupt::TypeCode(_)) => corrupt_line = lines.iter().position(|(_, k)| *k == LineKind::TypeCode).map(|i| i + 1),
             Some(QCorrupt::Count(k)) => {
-                let idx: Vec<usize> = lines.iter().enumerate().filter(|(_, (_, kind))| *kind == LineKind::Count).map(|(i, _)| i).collect();
+                let idx: Vec<usize> = lines.iter().enumerate().filter(|(_, (_, kind))| matches!(*kind, LineKind::Count | LineKind::EntryCount)).map(|(i, _)| i).collect();
                 let li = idx[*k as usize % idx.len()];
                 let l = &lines[li].0;
                 let first_end = l.find(|c: char| c.is_ascii_whitespace()).unwrap_or(l.len());
                 let _ = first_end;
                 lines[li].0 = format!("x{}", l);
                 corrupt_line = Some(li + 1);
+            }
+            Some(QCorrupt::CountBeyondFile(k, which)) => {
+                let idx: Vec<usize> = lines.iter().enumerate().filter(|(_, (_, kind))| *kind == LineKind::EntryCount).map(|(i, _)| i).collect();
+                let li = idx[*k as usize % idx.len()];
+                let l = lines[li].0.clone();
+                let first_end = l.find(|c: char| c.is_ascii_whitespace()).unwrap_or(l.len());
+                let big = ["1000000000", "1000000000000", "4611686018427387904", "18446744073709551615"][*which as usize % 4];
+                lines[li].0 = format!("{}{}", big, &l[first_end..]);
+                corrupt_line = Some(li + 1);
+                corrupt_line_is_lower_bound = true;
             }
             Some(QCorrupt::Number(k)) => {
                 // number tokens: the value of every Value line; the last required token of Entry lines that end in a number
@@ -367,7 +386,7 @@ impl QpModel {
                 text.push_str(nl);
             }
         }
-        Rendered { text, corrupt_line, last_required_start, n_lines: lines.len() }
+        Rendered { text, corrupt_line, corrupt_line_is_lower_bound, last_required_start, n_lines: lines.len() }
     }
 }
 
